@@ -21,7 +21,7 @@ func Drive(w *hx.Writer, o *hx.Opts, focus string, wrap func(string) string) {
 			fkey = "idle-rearm-with-outstanding"
 		}
 		w.Emit("tdc-script", hx.Case{ID: id, FKey: fkey, Coq: wrap(CaseCoq(s, obs, f)),
-			Desc: map[string]any{"tcp": s.TCP, "maxcq": s.MaxCq, "nq0": s.Nq0, "actions": acts, "blocked": f.Blocked,
+			Desc: map[string]any{"slow_close": s.SlowClose, "tcp": s.TCP, "maxcq": s.MaxCq, "nq0": s.Nq0, "actions": acts, "blocked": f.Blocked,
 				"reserved": f.Reserved, "queued": f.Queued, "closed": f.Closed}})
 		w.Tally("tdc-actions", len(s.Actions))
 	}
